@@ -353,39 +353,18 @@ class Multiplexer(wiring.Component):
                 The shadow register offset corresponding to the :class:`Multiplexer._Shadow.Chunk`
                 used by ``addr``.
 
-                The address decoding scheme is illustrated by the following example:
-                    * ``addr`` is ``0x1c``;
-                    * ``reg_range`` is ``range(0x1b, 0x1f)``;
-                    * the :attr:`~Multiplexer._Shadow.size` of the shadow is ``16``.
+                The offset is made of the ``log2(self.size)`` lower bits of ``addr``. For example,
+                if ``addr`` is ``0x1c`` and the :attr:`~Multiplexer._Shadow.size` of the shadow is
+                ``16``, the decoded offset is ``12`` (i.e. ``0b1100``).
 
-                The lower bits of the offset would be ``0b00``, extracted from ``addr``:
-
-                .. code-block::
-
-                    +----+--+--+
-                    |0001|11|00|
-                    +----+--+--+
-                            │  └─ 0
-                            └──── ceil_log2(reg_range.stop - reg_range.start)
-
-                The upper bits of the offset would be ``0b10``, extracted from ``reg_range.start``:
-
-                .. code-block::
-
-                    +----+--+--+
-                    |0001|10|11|
-                    +----+--+--+
-                         │  │
-                         │  └──── ceil_log2(reg_range.stop - reg_range.start)
-                         └─────── log2(self.size)
-
-                The decoded offset would therefore be ``8`` (i.e. ``0b1000``).
+                Because :attr:`~Multiplexer._Shadow.size` is at least as large as the (power-of-2)
+                size of any register of the shadow, two addresses of the same register are never
+                decoded to the same offset. Doubling the size of the shadow always separates two
+                addresses that differ in the newly decoded bit, whether or not the registers are
+                naturally aligned; this is what lets :meth:`~Multiplexer._Shadow.prepare` terminate.
             """
             assert reg_range in self._ranges and addr in reg_range
-            reg_size  = 2 ** ceil_log2(reg_range.stop - reg_range.start)
-            self_mask = self.size - 1
-            reg_mask  = reg_size - 1
-            return reg_range.start & self_mask & ~reg_mask | addr & reg_mask
+            return addr & (self.size - 1)
 
         def encode_offset(self, offset, reg_range):
             """Encode a shadow register offset into a CSR bus address.
